@@ -35,7 +35,8 @@ UNSTABLE = {"visual", "permutate", "mutable", "smooth_shaded", "principal_inerti
 MATRIX_CLASSES = ["rigid", "uscale", "mirror", "aniso", "shear", "neariden", "trans", "mirror_scale"]
 OPS = ["transform"] * 5 + ["invert", "faces_bool", "faces_int", "merge", "unref", "unmerge", "fix_normals", "inplace_v",
                             "reassign_f", "rezero", "scale", "translate", "density", "center_mass", "set_normals",
-                            "process", "process_validate", "fill_holes", "inplace_f", "copy_edit", "inplace_then_translate"]
+                            "process", "process_validate", "fill_holes", "inplace_f", "copy_edit", "inplace_then_translate",
+                            "merge_norm", "merge_tex"]
 
 
 # ------------------------------------------------------------------ translator: exclude / dependency table
@@ -133,28 +134,48 @@ def table():
     deps = {k: sorted(closure(k, set())) for k in sorted(set(cached) | set(side))}
     # mutators keeping part of the cache
     muts = {}
+    NORMALS_ONLY = {"face_normals", "vertex_normals"}
     for name, f in funcs.items():
-        excl = None
+        excls = []
         for n in ast.walk(f):
             if isinstance(n, ast.Call) and ast.unparse(n.func) == "self._cache.clear":
                 for kw in n.keywords:
                     if kw.arg == "exclude":
                         try:
-                            excl = sorted(ast.literal_eval(kw.value))
+                            excls.append(set(ast.literal_eval(kw.value)))
                         except Exception:
                             raise common.Broken("translate", f"exclude set of {name} is not a literal")
-        if excl is None:
+        if not excls:
             continue
+        keep = sorted(set().union(*excls))
         src = ast.unparse(f)
+        flips = "np.fliplr(self.faces)" in src
+        # is there a dedicated path for a winding flip that keeps only the normals and returns?
+        flip_path = False
+        for n in ast.walk(f):
+            if isinstance(n, ast.If) and "flip" in ast.unparse(n.test) and any(isinstance(x, ast.Return) for x in ast.walk(n)):
+                for c in ast.walk(n):
+                    if isinstance(c, ast.Call) and ast.unparse(c.func) == "self._cache.clear":
+                        for kw in c.keywords:
+                            if kw.arg == "exclude" and set(ast.literal_eval(kw.value)) <= NORMALS_ONLY:
+                                flip_path = True
+        flips_keeping = flips and not flip_path and not set(keep) <= NORMALS_ONLY
         rewrites = sorted({k for k in ("face_normals", "vertex_normals")
                            if f'self._cache.cache["{k}"]' in src.replace("'", '"') or f"self.{k} =" in src})
-        muts[name] = {"exclude": excl, "rewrites": rewrites, "id_set": "self._cache.id_set()" in src,
-                      "locked": "with self._cache" in src,
-                      "flips": "np.fliplr(self.faces)" in src,
-                      "verifies_first": any(isinstance(s, ast.Expr) and "self._cache.verify()" in ast.unparse(s)
-                                            for s in f.body[:6]),
-                      "flip_clears_topology": "flip" in src and "exclude" in src and src.count("exclude") >= 1 and
-                                              ("if flip" in src or "if not flip" in src)}
+        verifies = False
+        for st in f.body:
+            if isinstance(st, ast.Expr) and isinstance(st.value, ast.Constant):
+                continue                       # docstring
+            u = ast.unparse(st)
+            if u.strip() == "self._cache.verify()":
+                verifies = True
+                break
+            if "self._cache.clear" in u or "self._cache.cache" in u or isinstance(st, ast.With) or ".faces =" in u \
+                    or ".vertices =" in u:
+                break                          # something touches the cache / data before any verify
+        muts[name] = {"exclude": keep, "rewrites": rewrites,
+                      "id_set": "self._cache.id_set()" in src or "with self._cache" in src,
+                      "flips_keeping": flips_keeping, "verifies_first": verifies}
     return {"keys": sorted(cached), "deps": deps, "mutators": muts}
 
 
@@ -174,7 +195,7 @@ def translate(ctx):
     L.append("def mutators : List (String × List String × List String × Bool × Bool × Bool) := [")
     L.append(",\n".join(
         f'  ("{n}", {lst(m["exclude"])}, {lst(m["rewrites"])}, {str(m["id_set"]).lower()}, '
-        f'{str(m["flips"] and not m["flip_clears_topology"]).lower()}, {str(m["verifies_first"]).lower()})'
+        f'{str(m["flips_keeping"]).lower()}, {str(m["verifies_first"]).lower()})'
         for n, m in sorted(t["mutators"].items())))
     L.append("]")
     L.append("end TV.Generated.C01")
@@ -182,7 +203,17 @@ def translate(ctx):
 
 
 def generated_obligations():
-    return 3
+    return 2
+
+
+def synth_cases(ctx, broken):
+    """a broken table obligation becomes: read key, apply the cache-keeping mutator, read again"""
+    for op in ("transform:rigid", "transform:mirror", "transform:aniso", "transform:trans", "transform:uscale", "invert",
+               "process", "process_validate", "unmerge", "inplace_then_translate", "copy_edit"):
+        for start in ("box", "ico"):
+            yield {"kind": "history", "start": start, "steps": [{"reads": list(stable_keys()), "op": op, "seed": 3}]}
+            for k in stable_keys():
+                yield {"kind": "history", "start": start, "steps": [{"reads": [k], "op": op, "seed": 3}]}
 
 
 # ------------------------------------------------------------------ generator
@@ -191,12 +222,15 @@ def cases(ctx):
     rng = ctx.rng
     keys = stable_keys()
     # every (read, mutator class, read) triple for the mutators that keep cache entries
+    for op in ("merge", "merge_norm", "unref", "unmerge", "fill_holes"):
+        for start in ("soup", "boxsoup", "dupes", "open"):
+            yield {"kind": "history", "start": start, "steps": [{"reads": ["vertex_normals", "face_normals"], "op": op, "seed": 5}]}
     for op in ("transform:mirror", "transform:aniso", "transform:rigid", "transform:trans", "invert",
                "process_validate", "inplace_then_translate"):
         for k in ("face_normals", "vertex_normals", "edges", "edges_unique", "face_adjacency", "volume"):
             yield {"kind": "history", "start": "box", "steps": [{"reads": [k], "op": op, "seed": 7}]}
     while True:
-        start = rng.choice(["box", "tet", "two", "open", "ico", "dupes"])
+        start = rng.choice(["box", "tet", "two", "open", "ico", "dupes", "soup", "boxsoup"])
         steps = []
         for _ in range(rng.randint(1, 6)):
             mode = rng.choice(["none", "one", "three", "all", "normals", "topo"])
@@ -255,6 +289,14 @@ def _start(name):
         F = np.array(m.faces)
         F[0, 0] = 8 + 0 if F[0, 0] == 0 else F[0, 0]
         return trimesh.Trimesh(V, F, process=False)
+    if name == "soup":
+        m = trimesh.creation.icosphere(subdivisions=1)
+        m.unmerge_vertices()
+        return trimesh.Trimesh(np.array(m.vertices), np.array(m.faces), process=False)
+    if name == "boxsoup":
+        m = trimesh.creation.box()
+        m.unmerge_vertices()
+        return trimesh.Trimesh(np.array(m.vertices), np.array(m.faces), process=False)
     return trimesh.creation.icosphere(subdivisions=1)
 
 
@@ -303,6 +345,10 @@ def _apply(m, op, seed):
         m.update_faces(nr.integers(0, len(m.faces), size=max(1, len(m.faces) // 2)))
     elif op == "merge":
         m.merge_vertices()
+    elif op == "merge_norm":
+        m.merge_vertices(merge_norm=True)
+    elif op == "merge_tex":
+        m.merge_vertices(merge_tex=True, merge_norm=True, digits_vertex=4)
     elif op == "unref":
         m.remove_unreferenced_vertices()
     elif op == "unmerge":
